@@ -148,101 +148,46 @@ def cmpKeys : List Bool → List String → List String → Ordering
     | o => if d then o.swap else o
   | _, _, _ => .eq
 
-/-! ### the calculators at `Float`, in one universal state type -/
+/-! ### the calculators at `Float` (`Bluge.Agg.aggCalc`), the sketches modelled by what was inserted -/
 
-inductive MSt where
-  | one (v : Float)
-  | two (w : WAvg Float)
-
-inductive ASt where
-  | m (s : MSt)
-  | t (s : TermsSt (List MSt))
-  | r (s : List (List MSt))
-  | sk (fed : List String)      -- a sketch is modelled by what was inserted, in order
-
-inductive ARes where
-  | m (v : Float)
-  | t (res : TermsRes (List Float))
-  | r (bs : List (List Float))
-  | sk (fed : List String)
-  | none
-
-def numSrc (f : Field) : M → List Float := fun m => m.vals.num f
-def txtSrc (f : Field) : M → List Term := fun m => m.vals.txt f
-def dateSrc (f : Field) : M → List Int := fun m => m.vals.date f
-
-def one (c : Calc M Float Float) : Calc M MSt Float :=
-  c.embed MSt.one (fun | .one v => some v | _ => none) 0
-def two (c : Calc M (WAvg Float) Float) : Calc M MSt Float :=
-  c.embed MSt.two (fun | .two w => some w | _ => none) 0
-
-def metricCalc : Metric Float → Calc M MSt Float
-  | .count => one countCalc
-  | .sum f => one (sumCalc (numSrc f))
-  | .min f => one (minCalc posInf (numSrc f))
-  | .max f => one (maxCalc negInf (numSrc f))
-  | .maxFrom f i => one (maxCalc i (numSrc f))
-  | .avg f => two (avgCalc (numSrc f))
-  | .wavg f w => two (wavgCalc (numSrc f) (some (numSrc w)))
-
-/-- the bucket of nested aggregations: "count" first, then s0, s1, … -/
-def subCalc (subs : List (Metric Float)) : Calc M (List MSt) (List Float) :=
-  Calc.all ((Metric.count :: subs).map metricCalc)
-
-/-- `uint64(bucket.Aggregations()["count"].Value())` -/
-def cntOf : List MSt → Nat
-  | .one v :: _ => v.toUInt64.toNat
-  | _ => 0
+abbrev SK := List String     -- a sketch is modelled by the values inserted, in order
+abbrev AR := ARes Float SK SK
 
 /-- the sort used by `Finish`: Go's insertion sort for ≤ 12 buckets; for more, a sort by descending count whose
 tie-break follows `rank` (the order the implementation returned — `sort.Sort` is modelled, not verified) -/
-def termSort (rank : List Term) (l : List (Term × List MSt)) : List (Term × List MSt) :=
-  if l.length ≤ 12 then isortDesc cntOf l else
+def termSort (cnt : List (MSt Float) → Nat) (rank : List Term) (l : List (Term × List (MSt Float))) :
+    List (Term × List (MSt Float)) :=
+  if l.length ≤ 12 then isortDesc cnt l else
   let pos (t : Term) : Nat := (rank.findIdx? (· == t)).getD rank.length
-  isortDesc cntOf (l.mergeSort fun a b => pos a.1 ≤ pos b.1)
+  isortDesc cnt (l.mergeSort fun a b => pos a.1 ≤ pos b.1)
 
-def aggCalc (rank : List Term) : Agg Float → Calc M ASt ARes
-  | .metric m => ((metricCalc m).embed ASt.m (fun | .m s => some s | _ => none) 0).mapVal ARes.m
-  | .card f => ((sketchCalc [] (fun l v => l ++ [v]) (txtSrc f)).embed ASt.sk (fun | .sk l => some l | _ => none) []).mapVal ARes.sk
-  | .quant f => ((sketchCalc [] (fun l v => l ++ [fbits v]) (numSrc f)).embed ASt.sk (fun | .sk l => some l | _ => none) []).mapVal ARes.sk
-  | .terms f size subs =>
-      ((termsCalc (txtSrc f) size (subCalc subs) cntOf (termSort rank)).embed ASt.t (fun | .t s => some s | _ => none)
-        ⟨[], 0⟩).mapVal ARes.t
-  | .ranges f rs subs =>
-      ((rangeCalc (numSrc f) rs inNumRange (subCalc subs)).embed ASt.r (fun | .r s => some s | _ => none) []).mapVal ARes.r
-  | .dranges f rs subs =>
-      ((rangeCalc (dateSrc f) rs inDateRange (subCalc subs)).embed ASt.r (fun | .r s => some s | _ => none) []).mapVal ARes.r
+def cnt0 : List (MSt Float) → Nat
+  | .one v :: _ => v.toUInt64.toNat
+  | _ => 0
+
+def envOf (rank : List Term) : Env Float SK SK :=
+  { posInf := posInf, negInf := negInf, toNat := fun v => v.toUInt64.toNat, ofNat := Float.ofNat,
+    sort := termSort cnt0 rank,
+    hll := [], hllInsert := fun l v => l ++ [v], td := [], tdAdd := fun l v => l ++ [fbits v] }
 
 /-! ### the specification: direct counting over the matched documents' own values -/
 
-def specMetric (m : Metric Float) (ms : List M) : Float :=
-  match m with
-  | .count => Float.ofNat ms.length
-  | .sum f => specSum (numSrc f) ms
-  | .min f => specMin posInf (numSrc f) ms
-  | .max f => specMax negInf (numSrc f) ms
-  | .maxFrom f i => specMax i (numSrc f) ms
-  | .avg f => specWAvg (numSrc f) none ms
-  | .wavg f w => specWAvg (numSrc f) (some (numSrc w)) ms
-
-def specSubs (subs : List (Metric Float)) (ms : List M) : List Float :=
-  (Metric.count :: subs).map fun m => specMetric m ms
-
-def specAgg (rank : List Term) (a : Agg Float) (ms : List M) : ARes :=
+def specAgg (rank : List Term) (a : Agg Float) (ms : List (DocVals Float)) : AR :=
+  let env := envOf rank
   match a with
-  | .metric m => .m (specMetric m ms)
-  | .card f => .sk (allVals (txtSrc f) ms)
-  | .quant f => .sk ((allVals (numSrc f) ms).map fbits)
+  | .metric m => .m (specMetric env m ms)
+  | .card f => .card (allVals (txtSrc f) ms)
+  | .quant f => .quant ((allVals (numSrc f) ms).map fbits)
   | .terms f size subs =>
     let names := (allVals (txtSrc f) ms).eraseDups          -- first-seen order
     let table := names.map fun t => (t, having (txtSrc f) t ms)
     -- the same sort as the model, on (name, count) pairs
-    let sorted := termSort rank (table.map fun b => (b.1, [MSt.one (Float.ofNat b.2.length)]))
+    let sorted := env.sort (table.map fun b => (b.1, [MSt.one (Float.ofNat b.2.length)]))
     let kept := (sorted.take size).filterMap fun b => table.find? (·.1 == b.1)
-    .t { buckets := kept.map fun b => (b.1, b.2.length, specSubs subs b.2),
+    .t { buckets := kept.map fun b => (b.1, b.2.length, specSubs env subs b.2),
          other := (ms.length : Int) - ((kept.map fun b => b.2.length).sum : Nat) }
-  | .ranges f rs subs => .r (rs.map fun r => specSubs subs (occR (numSrc f) inNumRange r ms))
-  | .dranges f rs subs => .r (rs.map fun r => specSubs subs (occR (dateSrc f) inDateRange r ms))
+  | .ranges f rs subs => .r (rs.map fun r => specSubs env subs (occR (numSrc f) inNumRange r ms))
+  | .dranges f rs subs => .r (rs.map fun r => specSubs env subs (occR (dateSrc f) inDateRange r ms))
 
 /-! ### rendering (canonical form shared with the harness) -/
 
@@ -256,12 +201,12 @@ def showBucket (name : String) (vs : List Float) : String :=
 
 /-- `implPart` is the implementation's rendering of the same aggregation (needed for the sketches: the
 model of a sketch is the list of values fed; the numbers come from the Go sketch fed directly). -/
-def showARes (a : Agg Float) (r : ARes) (trueFed : List String) (implPart : String) : String :=
+def showARes (a : Agg Float) (r : AR) (trueFed : List String) (implPart : String) : String :=
   match r with
   | .m v => "m:" ++ fbits v
   | .t res => s!"t:other={res.other},[" ++ "|".intercalate (res.buckets.map fun b => s!"{b.1}:{b.2.1}{showSubs (b.2.2.drop 1)}") ++ "]"
   | .r bs => "r:[" ++ "|".intercalate (bs.zipIdx.map fun (vs, i) => showBucket s!"r{i}" vs) ++ "]"
-  | .sk fed =>
+  | .card fed | .quant fed =>
     let tag := implPart.take 2
     let direct := match (implPart.drop 2).toString.splitOn "/" with | [_, d] => d | _ => "?"
     let implV := match (implPart.drop 2).toString.splitOn "/" with | [i, _] => i | _ => "?"
@@ -273,11 +218,13 @@ def showARes (a : Agg Float) (r : ARes) (trueFed : List String) (implPart : Stri
       -- a t-digest fed exactly the documents' values in order is the directly fed one; fed anything else
       -- the model cannot compute the numbers (it echoes them; the spec comparison decides)
       if fed == trueFed then s!"{tag}{direct}/{direct}" else s!"{tag}{implV}/{direct}"
-  | .none => "?"
 
 /-! ### the step -/
 
 structure St where
+  /-- `Bluge.Agg.codeFacts` unless the environment variable `VERIF_C16_FACTS=fixed` (experiments against a
+  scratch copy with candidate repairs) -/
+  facts : CodeFacts := codeFacts
   docs : Std.HashMap String Doc := {}
   memo : Std.HashMap String String := {}
 
@@ -310,16 +257,25 @@ def aggKind : Agg Float → String
   | .metric (.max _) | .metric (.maxFrom _ _) => "max" | .metric (.avg _) => "avg" | .metric (.wavg _ _) => "weighted-avg"
   | .card _ => "cardinality" | .quant _ => "quantiles" | .terms .. => "terms" | .ranges .. => "range" | .dranges .. => "date-range"
 
-/-- quantiles: every value within [min, max] of the matched values and non-decreasing in the rank -/
-def quantOk (implPart : String) (vals : List Float) : Bool :=
+/-- distance in units in the last place (adjacent doubles are adjacent under `Float64ToInt64`) -/
+def ulps (a b : Float) : Nat := (sortKeyOf a - sortKeyOf b).natAbs
+
+/-- quantiles: every value within [min, max] of the matched values and non-decreasing in the rank.
+0 = holds; 1 = violated, but by at most 4 units in the last place everywhere (rounding of the interpolation
+inside the sketch); 2 = violated by more. -/
+def quantClass (implPart : String) (vals : List Float) : Nat :=
   let qs := match (implPart.drop 2).toString.splitOn "/" with
     | [i, _] => (i.splitOn ",").map fun s => if s == "nan" then (0.0 / 0.0 : Float) else ofHex s
     | _ => []
-  if vals.isEmpty then true else
+  if vals.isEmpty then 0 else
   let lo := vals.foldl (fun a b => if b < a then b else a) posInf
   let hi := vals.foldl (fun a b => if b > a then b else a) negInf
-  qs.all (fun q => lo ≤ q && q ≤ hi) &&
-  (qs.zip (qs.drop 1)).all fun (a, b) => a ≤ b
+  -- excess of each requirement, in ulps (0 when satisfied); NaN counts as a gross violation
+  let ex (small big : Float) : Nat := if small ≤ big then 0 else if small.isNaN || big.isNaN then 1000 else ulps small big
+  let worst := (qs.map fun q => Nat.max (ex lo q) (ex q hi)).foldl Nat.max 0
+  let worstM := ((qs.zip (qs.drop 1)).map fun (a, b) => ex a b).foldl Nat.max 0
+  let w := Nat.max worst worstM
+  if w == 0 then 0 else if w ≤ 4 then 1 else 2
 
 def reqStep (st : St) (ws : List String) (impl : String) : St × String × String :=
   let q := splitKV ws "q"
@@ -335,13 +291,13 @@ def reqStep (st : St) (ws : List String) (impl : String) : St × String × Strin
     | [id, ks] => { id := id, vals := ((st.docs.get? id).getD {}).vals, keys := (ks.splitOn "/").map unhexKey }
     | _ => { id := p, vals := ({} : Doc).vals, keys := [] }
   let unknown := hits.any fun h => !(st.docs.contains h.id)
-  let needed := neededFields (sortFields coll) aggs
+  let needed := neededFields st.facts (sortFields coll) aggs
   let load : Hit → M := fun h => { h with vals := Agg.load needed h.vals }
   let parts := implAggParts impl
   let partOf (i : Nat) : String := (parts.lookup s!"a{i}").getD ""
   -- one calculator per top-level aggregation, in one bucket
-  let calcs := aggs.zipIdx.map fun (a, i) => aggCalc (implRank (partOf i)) a
-  let bucket := Calc.all calcs
+  let calcs := aggs.zipIdx.map fun (a, i) => aggCalc (envOf (implRank (partOf i))) a
+  let bucket : Calc M _ _ := (Calc.all calcs).comap (·.vals)
   -- (a) the collector model
   let (results, hitIds, brs) :=
     if coll.all then
@@ -358,8 +314,8 @@ def reqStep (st : St) (ws : List String) (impl : String) : St × String × Strin
         ++ (if r.exits.afterSkip > 0 then ["after-skip"] else []) ++ (if r.exits.shortcut > 0 then ["shortcut"] else [])
         ++ (if r.exits.evicted > 0 then ["evict"] else []) ++ (if cfg.size + cfg.skip > 10 then ["heap-store"] else []))
   -- (b) the specification on the documents' own values
-  let trueMs : List M := hits
-  let trueFed (a : Agg Float) : List String := match specAgg [] a trueMs with | .sk l => l | _ => []
+  let trueMs : List (DocVals Float) := hits.map (·.vals)
+  let trueFed (a : Agg Float) : List String := match specAgg [] a trueMs with | .card l | .quant l => l | _ => []
   let modelParts := (aggs.zip results).zipIdx.map fun ((a, r), i) => s!"a{i}=" ++ showARes a r (trueFed a) (partOf i)
   let specParts := aggs.zipIdx.map fun (a, i) =>
     s!"a{i}=" ++ showARes a (specAgg (implRank (partOf i)) a trueMs) (trueFed a) (partOf i)
@@ -375,7 +331,10 @@ def reqStep (st : St) (ws : List String) (impl : String) : St × String × Strin
       | _ => false
     if sp == ip && !sketchBad then
       (match a with
-       | .quant f => if quantOk (partOf i) (allVals (numSrc f) trueMs) then none else some "quantile-out-of-range-or-not-monotone"
+       | .quant f => match quantClass (partOf i) (allVals (numSrc f) trueMs) with
+          | 0 => none
+          | 1 => some "quantile-bounds-off-by-rounding"
+          | _ => some "quantile-out-of-range-or-not-monotone"
        | _ => none)
     else if a.reads.any (fun f => cnt f ≥ 2) then some "field-loaded-twice"
     else if a.reads.any (fun f => cnt f == 0) then some "nested-field-not-loaded"
@@ -399,7 +358,7 @@ def reqStep (st : St) (ws : List String) (impl : String) : St × String × Strin
                   ++ (if aggs.any (fun a => a.reads.any fun f => cnt f == 0) then ["needed-missing"] else [])
   let termBr := (aggs.zip results).foldl (fun acc (a, r) => match a, r with
       | .terms f size _, .t res =>
-        let distinct := (allVals (txtSrc f) (hits.map load)).eraseDups.length
+        let distinct := (allVals (txtSrc f) (hits.map fun h => (load h).vals)).eraseDups.length
         acc ++ [if distinct ≤ 12 then "terms-le12" else "terms-gt12"] ++ (if size < distinct then ["terms-trimmed"] else [])
           ++ (if res.other < 0 then ["terms-other-negative"] else []) ++ (if res.other > 0 then ["terms-other-positive"] else [])
       | _, _ => acc) []
@@ -410,19 +369,30 @@ def reqStep (st : St) (ws : List String) (impl : String) : St × String × Strin
 def c16step (st : St) (op : String) (impl : String) : St × String :=
   let ws := op.splitOn " "
   match ws with
-  | "case" :: _ => ({}, "case" ++ sep ++ "na")
+  | "case" :: _ => ({ facts := st.facts }, "case" ++ sep ++ "na")
   | "doc" :: id :: rest => ({ st with docs := st.docs.insert id (parseDoc rest) }, "ok" ++ sep ++ "ok")
   | ["commit"] => (st, "ok" ++ sep ++ "ok")
   | ["del", id] => ({ st with docs := st.docs.erase id }, "ok" ++ sep ++ "ok")
   | ["dv", id] =>
+    if impl == "skipped-after-hang" then (st, impl ++ sep ++ "na") else
     match st.docs.get? id with
     | some d =>
       let m := showDV d
       (st, m ++ sep ++ (if impl == m then "ok" else "bad:assumption-doc-values-are-the-distinct-terms-ascending"))
     | none => (st, "absent" ++ sep ++ "ok")
   | "req" :: rest =>
+    -- a search that did not return within the harness's time limit (or the rest of such a case)
+    if impl == "hang" then (st, "returns" ++ sep ++ "bad:search-does-not-return") else
+    if impl == "skipped-after-hang" then (st, impl ++ sep ++ "na") else
     let (st', m, v) := reqStep st rest impl
     (st', m ++ sep ++ v)
   | _ => (st, "bad-op" ++ sep ++ "na")
 
-def main : IO Unit := driverLoop ({} : St) c16step
+def main : IO Unit := do
+  let v ← IO.getEnv "VERIF_C16_FACTS"
+  let facts := match v with
+    | some "fixed" => fixedFacts
+    | some "dedup" => { dedupNeeded := true, rangeFieldsNested := false }
+    | some "rangefields" => { dedupNeeded := false, rangeFieldsNested := true }
+    | _ => codeFacts
+  driverLoop ({ facts := facts } : St) c16step
